@@ -24,8 +24,9 @@ from pathlib import Path
 V = []
 
 
-def v(id, mod, old, new, fire, note=""):
-    V.append(dict(id=id, mod=mod, old=old, new=new, fire=fire, note=note))
+def v(id, mod, old, new, fire, note="", extra=()):
+    """`extra`: further (module, old, new) edits applied together with the first one (cooperating sites)."""
+    V.append(dict(id=id, mod=mod, old=old, new=new, fire=fire, note=note, extra=list(extra)))
 
 
 # --------------------------------------------------------------------------- algorithms.py
@@ -157,6 +158,7 @@ v("la-hermitian-flag-too-wide", L, "left_vecs is None or left_vecs is vecs or np
 v("ok-la-matvec-rewritten", L, "return v - self._vecs @ (self._left_vecs.conj().T @ v)", "return v - self._vecs @ (self._left_vecs.T.conj() @ v)", [])
 v("ok-la-rmatvec-rewritten", L, "return v - self._left_vecs @ (self._vecs.conj().T @ v)", "return v - self._left_vecs @ (np.conj(self._vecs).T @ v)", [])
 
+v("la-adjoint-inherits-cached-relatives", L, "            self._adjoint_operator._adjoint_operator = self\n", "            self._adjoint_operator._adjoint_operator = self\n            self._adjoint_operator._conjugate_operator = self._conjugate_operator\n", ["C17", "C06"])
 # --------------------------------------------------------------------------- number_ordered_form.py
 N = "number_ordered_form"
 v("nof-annihilators-ascending", N, "for i, power in reversed(list(enumerate(powers))):", "for i, power in enumerate(powers):", ["C08", "C07"])
@@ -198,6 +200,20 @@ v("sq-denominator-one-sided", Q, "            denominator = shifted_H_jj - shift
 v("sq-mask-shared-with-caller", B, "                key: np.array(sympy.sympify(value).applyfunc(NumberOrderedForm.from_expr))", "                key: sympy.sympify(value).applyfunc(NumberOrderedForm.from_expr)", ["C10"])
 
 
+# variants distilled from the independently seeded changes of rounds 2 and 3 (cooperating sites use `extra`)
+v("ser-runtimeerror-swallowed-in-product", S, "        if cost(orders_1st) <= cost(orders_2nd):\n", "        try:\n            first[first_index]\n        except RuntimeError:\n            continue\n        if cost(orders_1st) <= cost(orders_2nd):\n", ["C11"])
+v("ap-dagger-bound-to-sparse-transpose", P, '        "Dagger": Dagger,\n', '        "Dagger": _adjoint,\n', ["C01", "C02", "C09", "C07"],
+  extra=[(P, "def _safe_divide(numerator, denominator):", "def _adjoint(value):\n    if hasattr(value, \"tocsr\"):\n        return value.T.tocsr()\n    return Dagger(value)\n\n\ndef _safe_divide(numerator, denominator):")])
+v("ok-ap-dagger-bound-to-wrapper", P, '        "Dagger": Dagger,\n', '        "Dagger": _adjoint,\n', [],
+  extra=[(P, "def _safe_divide(numerator, denominator):", "def _adjoint(value):\n    return Dagger(value)\n\n\ndef _safe_divide(numerator, denominator):")])
+v("ap-start-data-skips-absent-blocks", P, "                block + zeroth_order: series[block + zeroth_order] for block in all_blocks\n", "                block + zeroth_order: series[block + zeroth_order] for block in all_blocks\n                if series[block + zeroth_order] is not zero\n", ["C09"])
+v("bd-hermiticity-tested-after-monomial", B, "        expr = operator_derivatives[index].subs({n: 0 for n in symbols})\n", "        expr = operator_derivatives[index].subs({n: 0 for n in symbols}) * reduce(mul, [n**i for n, i in zip(symbols, index)], 1)\n", ["C20"],
+  extra=[(B, "        expr = expr * reduce(mul, [n**i for n, i in zip(symbols, index)], 1)\n        return _convert_if_zero(expr)", "        return _convert_if_zero(expr)")])
+v("bd-op-eval-drops-implicit-offdiagonal-zeroth-order", B, "        if original is zero:\n            return zero\n        if implicit and left == right == n_blocks - 1:", "        if original is zero:\n            return zero\n        if implicit and left != right and not any(index[2:]):\n            return zero\n        if implicit and left == right == n_blocks - 1:", ["C14", "C06"])
+v("bd-op-eval-helper-peeks-first-orders", B, "        original = operator[index[2:]]\n        if original is zero:\n            return zero\n        if implicit and left == right == n_blocks - 1:", "        original = operator[index[2:]]\n        if original is zero:\n            return zero\n        if all_first_orders_sparse():\n            pass\n        if implicit and left == right == n_blocks - 1:", ["C12"],
+  extra=[(B, "    def op_eval(*index):\n        left, right = index[:2]\n        if left > right and hermitian:", "    def all_first_orders_sparse():\n        return all(sparse.issparse(operator[tuple(order)]) for order in np.eye(operator.n_infinite, dtype=int))\n\n    def op_eval(*index):\n        left, right = index[:2]\n        if left > right and hermitian:")])
+
+
 def _copy_tree(root: Path) -> Path:
     d = Path(tempfile.mkdtemp(prefix="sv-selftest-"))
     shutil.copytree(root / "pymablock", d / "pymablock", ignore=shutil.ignore_patterns("tests", "__pycache__", "*.pyc"))
@@ -217,9 +233,25 @@ def _run_variant(args):
         ast.parse(new_src)
     except SyntaxError as e:
         return variant["id"], prop, "broken-variant", str(e)
+    extra_src = {}
+    for emod, eold, enew in variant.get("extra", []):
+        base_src = new_src if emod == variant["mod"] else extra_src.get(emod, (Path(root) / "pymablock" / f"{emod}.py").read_text())
+        if base_src.count(eold) != 1:
+            return variant["id"], prop, "skipped", ""
+        edited = base_src.replace(eold, enew, 1)
+        try:
+            ast.parse(edited)
+        except SyntaxError as e:
+            return variant["id"], prop, "broken-variant", str(e)
+        if emod == variant["mod"]:
+            new_src = edited
+        else:
+            extra_src[emod] = edited
     d = _copy_tree(Path(root))
     try:
         (d / "pymablock" / f"{variant['mod']}.py").write_text(new_src)
+        for emod, esrc in extra_src.items():
+            (d / "pymablock" / f"{emod}.py").write_text(esrc)
         buf = io.StringIO()
         with redirect_stdout(buf):
             code = run_property(prop, "quick", d, write=False, quiet=True)
